@@ -62,6 +62,14 @@ func c01Compare(c *mon.Ctx, s *model.Schema, text string, built *builtSchema, v 
 		c.Count(fmt.Sprintf("rejection code %d", obs.Code), 1)
 	}
 	if obs.Verdict() == want.String() {
+		// the same document, checked (Check, Len) before it is validated: one document in eight
+		if len(docText)%8 == 3 {
+			c.Count("documents also validated after Check() and Len() on the Document object", 1)
+			if pre := built.validateChecked(docText); pre.Verdict() != want.String() {
+				c.Violate("validate-checked", c01Case{text, s.OptKeys, docText}, want.String(), pre.String(),
+					"Validate verdict changes when the Document was Check()ed before ("+class+")")
+			}
+		}
 		return
 	}
 	// confirm on a fresh schema object (history independence is C11's business)
@@ -79,7 +87,9 @@ type builtSchema struct {
 	sp       lib.Spec
 	ok       bool
 	validate func(doc string) lib.Obs
-	check    lib.Obs
+	// validateChecked: the Document object is Check()ed and Len()ed before it is validated
+	validateChecked func(doc string) lib.Obs
+	check           lib.Obs
 }
 
 func buildSchema(sp lib.Spec) *builtSchema {
@@ -88,11 +98,13 @@ func buildSchema(sp lib.Spec) *builtSchema {
 	if !o.OK {
 		b.check = o
 		b.validate = func(string) lib.Obs { return o }
+		b.validateChecked = b.validate
 		return b
 	}
 	b.check = lib.Safe(s.Check)
 	b.ok = b.check.OK
 	b.validate = func(doc string) lib.Obs { return lib.ValidateOn(s, doc) }
+	b.validateChecked = func(doc string) lib.Obs { return lib.ValidateOnChecked(s, doc) }
 	return b
 }
 
@@ -463,6 +475,17 @@ func init() {
 		Run: c01Run,
 		Replay: map[string]func(json.RawMessage) string{
 			"validate": c01ReplayValidate,
+			"validate-checked": func(raw json.RawMessage) string {
+				var cs c01Case
+				if err := json.Unmarshal(raw, &cs); err != nil {
+					return "bad replay: " + err.Error()
+				}
+				s, o := lib.Build(lib.Spec{Text: cs.Schema, OptKeys: cs.OptKeys})
+				if !o.OK {
+					return o.Verdict()
+				}
+				return lib.ValidateOnChecked(s, cs.Doc).Verdict()
+			},
 			"vpanic": func(raw json.RawMessage) string {
 				var cs c01Case
 				json.Unmarshal(raw, &cs)
